@@ -400,9 +400,23 @@ def first_diff(m, o):
 
 
 def run(rep, tier, seed, replay):
+    # constants are probed from the compiled code of the tree under check BEFORE the Coq lock is taken
+    # (gen/params_c13.py then only reads the stored probe)
+    try:
+        import importlib.util
+        spec = importlib.util.spec_from_file_location("params_c13", os.path.join(ltv.VERIF, "gen", "params_c13.py"))
+        pm = importlib.util.module_from_spec(spec)
+        spec.loader.exec_module(pm)
+        probed = pm.probe(build=True)
+    except ltv.BuildError:
+        raise
+    except Exception as e:
+        probed = {}
+        ltv.log("params probe failed: %s" % (str(e)[:200],))
     coq = ltv.coq_build("C13")
     rep.cov.update(obligations=coq["obligations"], discharged=coq["discharged"], checker_cmd=coq["checker_cmd"],
                    theorems=coq["theorems"], axioms_per_theorem=coq["axioms"],
+                   params_probed_from_compiled_code=sorted(probed.keys()),
                    trusted_base=ltv.std_trusted_base(coq, [
                        "UDP wire cases: real TrackerUdp + UdpRouter on loopback; the tracker thread's clock is stepped by the harness to reach UdpRouter's retransmission timeouts",
                        "modelled not verified: tracker workers (HTTP/UDP/DHT) are the environment; the harness worker applies the same TrackerState updates (set_*_interval through the real clamping setters, requesting flags) as TrackerHttp/TrackerUdp",
